@@ -48,6 +48,7 @@ type base struct {
 type summary struct {
 	wt1 map[int]bool          // parameters whose direct pointee is written
 	wt2 map[int]bool          // parameters written at depth >= 2
+	esc map[int]bool          // pointer parameters handed to code we cannot see (dynamic call, closure, heap)
 	ret map[int]map[base]bool // per result index: what it may point into (globals / parameters)
 	wr  map[string]string     // global name -> how (first reason found)
 }
@@ -60,7 +61,7 @@ var (
 func sum(fn *ssa.Function) *summary {
 	s := sums[fn]
 	if s == nil {
-		s = &summary{wt1: map[int]bool{}, wt2: map[int]bool{}, ret: map[int]map[base]bool{}, wr: map[string]string{}}
+		s = &summary{wt1: map[int]bool{}, wt2: map[int]bool{}, esc: map[int]bool{}, ret: map[int]map[base]bool{}, wr: map[string]string{}}
 		sums[fn] = s
 	}
 	return s
@@ -141,7 +142,7 @@ func (a *analysis) deref(bs map[base]bool) map[base]bool {
 	for b := range bs {
 		switch {
 		case b.g != nil:
-			out[b] = true
+			out[base{g: b.g, d: 1}] = true
 		case b.a != nil:
 			for _, sv := range a.stores[b.a] {
 				union(out, a.valBase(sv))
@@ -328,10 +329,36 @@ func analyse(fn *ssa.Function) {
 			}
 		}
 	}
+	// escape: the ADDRESS of a package-level variable (or a pointer parameter) is handed to code the
+	// analysis cannot see; reported as a potential writer of the variable
+	escape := func(v ssa.Value, how string) {
+		for b := range a.valBase(v) {
+			switch {
+			case b.g != nil && b.d == 0:
+				n := gname(b.g)
+				if _, ok := s.wr[n]; !ok {
+					s.wr[n] = "address escapes: " + how
+					changed = true
+				}
+			case b.g == nil && b.a == nil && b.d <= 1:
+				if !s.esc[b.p] {
+					s.esc[b.p] = true
+					changed = true
+				}
+			}
+		}
+	}
 	for _, bl := range fn.Blocks {
 		for _, ins := range bl.Instrs {
 			switch x := ins.(type) {
+			case *ssa.MakeClosure:
+				for _, bv := range x.Bindings {
+					escape(bv, "captured by a closure")
+				}
 			case *ssa.Store:
+				if rootAlloc(x.Addr) == nil {
+					escape(x.Val, "stored in non-local memory")
+				}
 				if _, ok := x.Addr.(*ssa.Global); ok {
 					note(a.valBase(x.Addr), "store")
 				} else {
@@ -341,6 +368,7 @@ func analyse(fn *ssa.Function) {
 				note(a.valBase(x.Map), "map update")
 			case *ssa.Send:
 				note(a.valBase(x.Chan), "channel send")
+				escape(x.X, "sent on a channel")
 			case *ssa.Return:
 				for ri, r := range x.Results {
 					if pointerLike(r.Type()) {
@@ -370,6 +398,11 @@ func analyse(fn *ssa.Function) {
 					note(a.valBase(c.Args[0]), "builtin "+bi.Name())
 				}
 				continue
+			}
+			if c.IsInvoke() || (c.StaticCallee() == nil) {
+				for _, arg := range c.Args {
+					escape(arg, "passed to a dynamic call")
+				}
 			}
 			if c.IsInvoke() {
 				// interface method call: every method of a module type implementing the interface (CHA on module types)
@@ -409,6 +442,9 @@ func analyse(fn *ssa.Function) {
 				wt1, wt2 = sum(cal).wt1, sum(cal).wt2
 			}
 			for i, arg := range c.Args {
+				if len(cal.Blocks) > 0 && sum(cal).esc[i] {
+					escape(arg, "through "+cal.String())
+				}
 				if wt1[i] {
 					note(a.valBase(arg), "via "+cal.String())
 				}
